@@ -235,7 +235,9 @@ func deviceAccessToken(w http.ResponseWriter, r *http.Request, exchanger Exchang
 	if err != nil {
 		return err
 	}
-	if clientAuthenticated != IsConfidentialType(client) {
+	// whether a client has to authenticate is decided by its registered auth method
+	// (as for the code and refresh grants), not by its application type
+	if !clientAuthenticated && client.AuthMethod() != oidc.AuthMethodNone {
 		return oidc.ErrInvalidClient().WithParent(ErrNoClientCredentials).
 			WithDescription("confidential client requires authentication")
 	}
